@@ -441,19 +441,20 @@ static bool buf_iter_next(struct BufferIterator *iter, void *out) {
     for caps in callback_regex()?.captures_iter(&header) {
         all_wrappers += &format!(
             r"
-static inline bool cb_collect_static_{typename}(struct CollectBase *ctx, {typename} info) {{
-    return cb_collect_static_base(ctx, sizeof({typename}), &info);
+static inline bool cb_collect_static_{typename}(struct CollectBase *ctx, {ctype} info) {{
+    return cb_collect_static_base(ctx, sizeof({ctype}), &info);
 }}
 
-static inline bool cb_collect_dynamic_{typename}(struct CollectBase *ctx, {typename} info) {{
-    return cb_collect_dynamic_base(ctx, sizeof({typename}), &info);
+static inline bool cb_collect_dynamic_{typename}(struct CollectBase *ctx, {ctype} info) {{
+    return cb_collect_dynamic_base(ctx, sizeof({ctype}), &info);
 }}
 
-static inline bool cb_count_{typename}(size_t *cnt, {typename} info) {{
+static inline bool cb_count_{typename}(size_t *cnt, {ctype} info) {{
     return ++(*cnt);
 }}
 ",
-            typename = &caps["typename"]
+            typename = &caps["typename"],
+            ctype = primitive_c_type(&caps["typename"])
         );
     }
 
@@ -806,6 +807,28 @@ fn callback_regex() -> Result<Regex> {
         r"typedef struct Callback_c_void__(?P<typename>[^\s]+) \{[^}]*\} Callback_c_void__[^\s]+;",
     )
     .map_err(Into::into)
+}
+
+/// C spelling of a type as it appears in a mangled name.
+///
+/// Primitive types keep their Rust names in the identifiers cbindgen mangles
+/// (`Callback_c_void__u64`), but those names are not C types.
+fn primitive_c_type(typename: &str) -> &str {
+    match typename {
+        "u8" => "uint8_t",
+        "u16" => "uint16_t",
+        "u32" => "uint32_t",
+        "u64" => "uint64_t",
+        "usize" => "uintptr_t",
+        "i8" => "int8_t",
+        "i16" => "int16_t",
+        "i32" => "int32_t",
+        "i64" => "int64_t",
+        "isize" => "intptr_t",
+        "f32" => "float",
+        "f64" => "double",
+        _ => typename,
+    }
 }
 
 fn zero_sized_ret_regex() -> Result<Regex> {
